@@ -412,6 +412,7 @@ def add_connection(u):
            ensures=[C('C13.select.effective_stall_stale_ms.formula', 'r == self.spec_eff_stale(ceiling_ms)')]))
     F(u.fn(CONN, 'is_stalled', impl='SrtlaConnection', sub='select', props=('C03',), ret='r', ensures=[
         C('C13.select.is_stalled.needs_backlog_and_stale_proof', 'r == self.spec_stalled(now_ms, min_in_flight, stale_ceiling_ms)')]))
+    u.add(S.LATCH_TRACE)
     F(u.fn(CONN, 'update_stall_latch', impl='SrtlaConnection', sub='select', props=('C03',),
            post_rewrite=[],
            requires=['old(self).stall_gate_events < 0x7fff_ffff_ffff_ffff', 'now_ms > 0', 'old(self).latch_wf()'],
